@@ -134,13 +134,14 @@ def run_req(res, ctx, rng, base, idx):
     if lic_state == "has-target":
         for i in stripped:
             if rng.random() < 0.5:
-                (licdir / f"{i}.txt").write_text(f"pre-existing text of {i}\n")
+                # (an existing file of zero bytes - a placeholder somebody committed - is an existing file like any other)
+                (licdir / f"{i}.txt").write_text(f"pre-existing text of {i}\n" if rng.random() < 0.65 else "")
                 existing[i] = True
     if git:
         trees.git_init(proj)
     # source for LicenseRef
     source = None
-    src_mode = rng.choice([None, None, "file", "dir", "dir-missing"])
+    src_mode = rng.choice([None, None, "file", "dir", "dir-missing", "dir-similar"])
     refs = [i for i in stripped if i.startswith("LicenseRef-")]
     srcdir = base / f"src{idx}"
     if refs and src_mode:
@@ -153,6 +154,11 @@ def run_req(res, ctx, rng, base, idx):
             if src_mode == "dir":
                 for i in refs:
                     (srcdir / f"{i}.txt").write_text(f"custom text of {i}\n")
+            if src_mode in ("dir", "dir-similar"):
+                # neighbours whose names merely begin like the identifier: other licences (or other things) altogether
+                for i in refs:
+                    for suffix in (".v2.txt", "-old.txt", ".md", ".txt.bak"):
+                        (srcdir / f"{i}{suffix}").write_text(f"NOT the text of {i}\n")
     else:
         src_mode = None
     outcomes = {}
